@@ -144,8 +144,18 @@ fn check_total(time: u32, reference: &[f64; 2], pkt: &[u8], rep: &Report) -> u8 
     }
 }
 
+thread_local! {
+    /// the call made just before the judged one (two-call sequences): part of the witness
+    static PRIOR: std::cell::RefCell<Option<(u32, Vec<u8>)>> = const { std::cell::RefCell::new(None) };
+}
+
 fn wit_inv(fl: &Fields, time: u32, reference: &[f64; 2], true_pos: Option<(f64, f64)>, pkt: &[u8]) -> Value {
     let mut w = wit(time, reference, pkt);
+    PRIOR.with(|p| {
+        if let Some((t, pk)) = &*p.borrow() {
+            w["prior_call"] = json!({"timestamp": t, "packet": hexs(pk)});
+        }
+    });
     w["fields"] = json!({"addr": fl.addr, "magic": fl.magic, "vs": fl.vs, "stealth": fl.stealth, "no_track": fl.no_track, "gps": fl.gps, "actype": fl.actype,
         "lat_code": fl.lat_code, "alt": fl.alt, "lon_code": fl.lon_code, "mult": fl.mult, "ns": fl.ns, "ew": fl.ew});
     if let Some((la, lo)) = true_pos {
@@ -374,6 +384,51 @@ pub fn run(ctx: &Ctx, rep: &Report) {
     total.fetch_add(n, Ordering::Relaxed);
     accepted.fetch_add(n, Ordering::Relaxed);
     rep.part("inversion: type/flags/altitude/address/timestamp", total.load(Ordering::Relaxed) - before, json!({"timestamps": ts.len()}));
+    // sequences of two calls (a memo of derived keys would be hidden state): decode one packet, then a packet whose
+    // (timestamp, address) differs in one timestamp bit and in none, one or two address bits, and hold the second
+    // to the inversion oracle; both orders. One thread: the calls of a pair must be consecutive.
+    {
+        let before = total.load(Ordering::Relaxed);
+        let bases: Vec<(u32, u32)> = if thorough {
+            vec![(1_646_885_426, 0x38f27b), (1_655_274_034, 0x38f27b), (0x0080_0000, 0x000000), (0x7fff_ffc0, 0xffffff), (63, 0xa5a5a5), (0xffff_ffff, 0x00ff00), (1 << 24, 0x800001), (1_700_000_000, 0x4840d6)]
+        } else {
+            vec![(1_646_885_426, 0x38f27b), (0x7fff_ffc0, 0xffffff), (63, 0xa5a5a5)]
+        };
+        let mut n = 0u64;
+        for (t0, a0) in bases {
+            let mut amasks: Vec<u32> = vec![0];
+            for i in 0..24 {
+                amasks.push(1 << i);
+                for j in 0..i {
+                    amasks.push((1 << i) | (1 << j));
+                }
+            }
+            let mut tmasks: Vec<u32> = vec![0];
+            tmasks.extend((0..32).map(|b| 1u32 << b));
+            tmasks.extend([0x40 | (1 << 23), 0xffff_ffc0, 0x3f]);
+            for tm in &tmasks {
+                for am in &amasks {
+                    if *tm == 0 && *am == 0 {
+                        continue;
+                    }
+                    let (t1, a1) = (t0 ^ tm, a0 ^ am);
+                    let f0 = Fields { addr: a0, actype: 2, no_track: true, alt: 1250, ..Fields::base() };
+                    let f1 = Fields { addr: a1, actype: 2, no_track: true, alt: 1250, ..Fields::base() };
+                    for (fa, ta, fb, tb) in [(&f0, t0, &f1, t1), (&f1, t1, &f0, t0)] {
+                        let prior = fa.packet(ta);
+                        let _ = decode(ta, &base_ref, &prior);
+                        PRIOR.with(|p| *p.borrow_mut() = Some((ta, prior)));
+                        check_inverse(fb, tb, &base_ref, None, rep);
+                        PRIOR.with(|p| *p.borrow_mut() = None);
+                        n += 2;
+                    }
+                }
+            }
+        }
+        total.fetch_add(n, Ordering::Relaxed);
+        accepted.fetch_add(n, Ordering::Relaxed);
+        rep.part("two-call sequences over timestamp-bit x address-bit neighbours", total.load(Ordering::Relaxed) - before, json!({"pairs": n / 2}));
+    }
     // positions: every latitude / longitude code inside the window of each reference
     let before = total.load(Ordering::Relaxed);
     let pos_refs: Vec<[f64; 2]> = {
@@ -493,6 +548,9 @@ pub fn replay(w: &Value, rep: &Report) {
     let r: Vec<f64> = w["reference"].as_array().map(|a| a.iter().map(|x| x.as_str().and_then(|s| s.parse::<f64>().ok()).unwrap_or(f64::NAN)).collect()).unwrap_or(vec![0.0, 0.0]);
     let pkt = unhex(w["packet"].as_str().unwrap_or(""));
     let reference = [r[0], r[1]];
+    if let Some(pc) = w.get("prior_call") {
+        let _ = decode(pc["timestamp"].as_u64().unwrap_or(0) as u32, &reference, &unhex(pc["packet"].as_str().unwrap_or("")));
+    }
     if let Some(f) = w.get("fields") {
         let arr = |k: &str| -> [i8; 4] {
             let mut o = [0i8; 4];
